@@ -134,6 +134,9 @@ let parse_corruption1 () =
   (* whole-bucket corruptions: the model state does not distinguish "bucket absent" (..DB) from "bucket present but empty" (..EB) *)
   | "EDB" | "EEB" -> let r = next_name () in let i = next_hex () in let b = next_name () in Some (XSetClear (r, i, b))
   | "SEK" -> let r = next_name () in let f = next_name () in let v = next_hex () in Some (XSClearKey (r, f, v))
+  (* a field in the bucket of a child store *)
+  | "CFS" -> let r = next_name () in let i = next_hex () in let c = next_name () in let f = next_name () in let v = next_hex () in Some (XCField (r, i, c, f, v))
+  | "CFN" -> let r = next_name () in let i = next_hex () in let c = next_name () in let f = next_name () in Some (XCFieldNil (r, i, c, f))
   | t -> failwith ("bad corruption " ^ t)
 
 (* the index bucket of a symbol: the symbol is a unique index or a set index, the other map has no entry under (r, f) *)
